@@ -82,16 +82,93 @@ func newSet(files map[string]string) (*pongo2.TemplateSet, *memLoader) {
 
 var emptySetFiles = map[string]string{}
 
-// renderString compiles src in a fresh set and executes it once.
+// renderString compiles src in a fresh set and executes it once. Which creation function (FromString / FromBytes) and
+// which of the four Execute entry points is used depends on a hash of the source, so that every check that goes through
+// here spreads over all of them, reproducibly.
 func renderString(src string, ctx pongo2.Context) (out string, cerr error, xerr error) {
 	set, _ := newSet(emptySetFiles)
-	tpl, err := set.FromString(src)
+	h := hashStr(src)
+	var tpl *pongo2.Template
+	var err error
+	if h&1 == 0 {
+		tpl, err = set.FromString(src)
+	} else {
+		tpl, err = set.FromBytes([]byte(src))
+	}
 	if err != nil {
 		return "", err, nil
 	}
-	out, err = tpl.Execute(ctx)
+	switch (h >> 1) & 3 {
+	case 0:
+		out, err = tpl.Execute(ctx)
+	case 1:
+		var b []byte
+		b, err = tpl.ExecuteBytes(ctx)
+		out = string(b)
+	case 2:
+		var buf bytes.Buffer
+		err = tpl.ExecuteWriter(ctx, &buf)
+		out = buf.String()
+	default:
+		var buf bytes.Buffer
+		err = tpl.ExecuteWriterUnbuffered(ctx, &buf)
+		out = buf.String()
+		if err != nil {
+			out = "" // the unbuffered variant may have written a leading part; callers only look at the error then
+		}
+	}
 	return out, nil, err
 }
+
+// enginePoison leaves behind everything a failed or broken-off execution can leave behind: executions that fail after
+// having produced output inside every buffering construct (include, computed include, macro, filter tag, spaceless,
+// block.Super, loops with cycle/ifchanged), through all four entry points, deliveries to writers that break or accept
+// only a part, includes that find nothing, and filter errors with fixed messages at odd positions. Every worker does
+// this before its first case and every 200 cases: state that survives in pools, caches or package-level variables of the
+// engine then meets the cases of every check, not only of the checks that build such histories themselves.
+var poisonTpls []*pongo2.Template
+
+func enginePoison() {
+	defer func() { recover() }() // a panic here belongs to C01's own workloads, not to every check
+	if poisonTpls == nil {
+		files := map[string]string{
+			"/p_inc.tpl":    `head {% include "/p_bad.tpl" %} tail`,
+			"/p_bad.tpl":    `POISON included text before the failure {{ pfail() }} after`,
+			"/p_lazy.tpl":   `{% with pname="/p_bad.tpl" %}{% include pmissing if_exists with a="POISON-a" b="POISON-b" c="POISON-c" g="POISON-g" %}{% include pname %}{% endwith %}`,
+			"/p_macro.tpl":  `{% macro pm(a) %}POISON macro text {{ a }}{{ pfail() }}{% endmacro %}x{{ pm(1) }}`,
+			"/p_imp.tpl":    `{% import "/p_lib.tpl" plm %}{{ plm() }}`,
+			"/p_lib.tpl":    `{% macro plm() export %}POISON imported macro {{ pfail() }}{% endmacro %}`,
+			"/p_filter.tpl": `{% filter upper|lower|cut:"~" %}POISON filter body {{ pfail() }}{% endfilter %}`,
+			"/p_misc.tpl":   `{% spaceless %}<a> POISON {{ pfail() }}</a>{% endspaceless %}{% autoescape off %}x{% endautoescape %}`,
+			"/p_loop.tpl":   `{% for i in plist %}{% cycle "Pa" "Pb" as pc %}{% ifchanged %}{{ i }}{% endifchanged %}{% ifchanged i %}c{% endifchanged %}{% endfor %}{% widthratio 1 2 3 as pw %}{% set ps = "POISON" %}{{ pfail() }}`,
+			"/p_base.tpl":   `base[{% block b %}b{% endblock %}]`,
+			"/p_blk.tpl":    `{% extends "/p_base.tpl" %}{% block b %}POISON child {{ block.Super }}{{ pfail() }}{% endblock %}`,
+			"/p_ferr.tpl":   "\n\n   {{ 1.5|floatformat:2000 }}",
+			"/p_ferr2.tpl":  "\n {{ \"x\"|ljust:20000 }}",
+			"/p_ferr3.tpl":  "\n\n\n      {{ 3|pluralize:\"a,b,c\" }}",
+			"/p_ferr4.tpl":  "  {{ \"s\"|date:\"2006\" }}",
+			"/p_ferr5.tpl":  "\n{{ \"abc\"|slice:\"x\" }}{{ \"x\"|center:20000 }}{{ \"x\"|rjust:20000 }}",
+			"/p_ok.tpl":     `POISON page {% include "/p_okinc.tpl" %} end of a page that was never delivered completely`,
+			"/p_okinc.tpl":  `POISON include body with a longer text, so that a writer which breaks in the middle leaves something over`,
+		}
+		set, _ := newSet(files)
+		for name := range files {
+			if t, err := set.FromFile(name); err == nil {
+				poisonTpls = append(poisonTpls, t)
+			}
+		}
+	}
+	ctx := pongo2.Context{"plist": []int{1, 1, 2}, "pmissing": "/p_no_such_file.tpl", "pfail": func() (string, error) { return "", errPoison }}
+	for i, t := range poisonTpls {
+		t.Execute(ctx)
+		t.ExecuteBytes(ctx)
+		t.ExecuteWriter(ctx, &recWriter{failAt: 1, err: errPoison, short: i % 3})
+		t.ExecuteWriterUnbuffered(ctx, &recWriter{failAt: 1 + i%3, err: errPoison, short: i % 4})
+		t.ExecuteWriter(ctx, &recWriter{failAt: 1, err: errPoison, full: true})
+	}
+}
+
+var errPoison = fmt.Errorf("poison: deliberate failure")
 
 func errStr(err error) string {
 	if err == nil {
